@@ -405,3 +405,5 @@ def extreme_axioms(A, n, is_min):
     m, w = F(A, n), G(A, n)
     return [z3.Implies(n >= 1, z3.And(w >= 0, w < n, A[w] == m)),
             z3.ForAll([i], z3.Implies(z3.And(i >= 0, i < n), m <= A[i] if is_min else m >= A[i]), patterns=[A[i]])]
+
+IDXOF = z3.Function("IDXOF", ARR, z3.IntSort(), z3.RealSort(), z3.IntSort())
